@@ -34,6 +34,8 @@ type c18Case struct {
 	Then      int    `json:"then"`                  // >= 0: a second ChangeScale(Then) on the SAME manager object (the coordinator calls it twice per cycle)
 	UpdFail   string `json:"updateFails,omitempty"` // "conflict" | "error": the StatefulSet update of the (first) ChangeScale is rejected by the API server
 	External  int    `json:"external"`              // >= 0: somebody else scales the StatefulSet to this count between Replicas() and ChangeScale()
+	Missing   uint32 `json:"missingMask,omitempty"` // bit k: pod k is not in the listing (lost and not yet re-created)
+	Foreign   bool   `json:"foreignPod,omitempty"`  // a pod of another workload carries the same labels (kubectl debug --copy-to)
 }
 
 const maxN = 12 // ordinals >= 10 matter: "prom-10" sorts before "prom-2" as a string
@@ -85,6 +87,23 @@ func c18Cases(tier string) []c18Case {
 		// rolling update in progress
 		for order := 0; order < 2; order++ {
 			cs = append(cs, c18Case{Old: old, New: old, Templates: 1, Order: order, Ready: (1 << uint(old)) - 1, Updating: 1, TwoSets: true, Then: -1, External: -1})
+		}
+	}
+	// a pod is missing from the listing (deleted, not yet re-created) while higher ordinals exist, or a foreign pod
+	// matches the selector: no position may show a ready shard unless the pod of that ordinal is listed with an IP
+	for _, old := range []int{2, 3, 4, 6, 11, 12} {
+		for order := 0; order < 6; order++ {
+			for k := 0; k < old; k++ {
+				if old > 6 && k != 0 && k != 1 && k != 9 && k != old-1 {
+					continue
+				}
+				cs = append(cs, c18Case{Old: old, New: old, Templates: 1, Order: order, Ready: (1 << uint(old)) - 1, Then: -1, External: -1, Missing: 1 << uint(k)})
+				cs = append(cs, c18Case{Old: old, New: old, Templates: 1, Order: order, Ready: ((1 << uint(old)) - 1) &^ 1, Then: -1, External: -1, Missing: 1 << uint(k), Foreign: true})
+			}
+			cs = append(cs, c18Case{Old: old, New: old, Templates: 1, Order: order, Ready: (1 << uint(old)) - 1, Then: -1, External: -1, Foreign: true})
+			if old >= 3 {
+				cs = append(cs, c18Case{Old: old, New: old, Templates: 1, Order: order, Ready: (1 << uint(old)) - 1, Then: -1, External: -1, Missing: 3})
+			}
 		}
 	}
 	// the API server rejects the StatefulSet update (optimistic-lock conflict with the controller's status
@@ -171,12 +190,21 @@ func buildWorld(c c18Case) (objs []runtime.Object, pvcNames map[string]bool) {
 	if c.TwoSets {
 		objs = append(objs, mk(set+"-b", 2, set+"-b", false))
 	}
+	if c.Foreign && c.Order%2 == 0 {
+		objs = append(objs, &corev1.Pod{ObjectMeta: metav1.ObjectMeta{Name: "debug-copy-of-" + set, Namespace: ns, Labels: map[string]string{"app": set}}, Status: corev1.PodStatus{PodIP: "10.9.3.3"}})
+	}
 	for _, k := range permute(c.Old, c.Order) {
+		if c.Missing&(1<<uint(k)) != 0 {
+			continue
+		}
 		p := &corev1.Pod{ObjectMeta: metav1.ObjectMeta{Name: fmt.Sprintf("%s-%d", set, k), Namespace: ns, Labels: map[string]string{"app": set}}}
 		if c.Ready&(1<<uint(k)) != 0 {
 			p.Status.PodIP = fmt.Sprintf("10.9.0.%d", k+10)
 		}
 		objs = append(objs, p)
+	}
+	if c.Foreign && c.Order%2 == 1 {
+		objs = append(objs, &corev1.Pod{ObjectMeta: metav1.ObjectMeta{Name: set + "-debug", Namespace: ns, Labels: map[string]string{"app": set}}, Status: corev1.PodStatus{PodIP: "10.9.3.3"}})
 	}
 	if c.TwoSets {
 		for k := 0; k < 2; k++ {
@@ -240,6 +268,37 @@ func runC18(w *core.WorkerCtx, idx int) *core.CaseResult {
 		return res
 	}
 	res.AddStat("shard_listings", 1)
+	if c.Missing != 0 || c.Foreign {
+		res.AddStat("listings_with_a_missing_or_foreign_pod", 1)
+		seen := map[string]int{}
+		for k, s := range shards {
+			listed := k < c.Old && c.Missing&(1<<uint(k)) == 0
+			hasIP := listed && c.Ready&(1<<uint(k)) != 0
+			var got string
+			s.APIGet = func(url string, ret interface{}) error { got = url; return fmt.Errorf("stop") }
+			_, _ = s.RuntimeInfo()
+			switch {
+			case !listed && s.Ready:
+				res.Violate("C18/ready-shard-without-pod", "position %d: no pod %s-%d is in the listing (missing mask %b, foreign pod %v, order class %d), but a READY shard %q contacted at %q is listed there", k, set, k, c.Missing, c.Foreign, c.Order, s.ID, got)
+			case listed && s.ID != fmt.Sprintf("%s-%d", set, k):
+				res.Violate("C18/shard-order", "position %d holds shard %q, expected %q (missing mask %b, foreign pod %v, order class %d)", k, s.ID, fmt.Sprintf("%s-%d", set, k), c.Missing, c.Foreign, c.Order)
+			case listed && s.Ready != hasIP:
+				res.Violate("C18/shard-readiness", "shard %s ready=%v, pod has IP=%v", s.ID, s.Ready, hasIP)
+			case listed && hasIP && !strings.HasPrefix(got, fmt.Sprintf("http://10.9.0.%d:%d/", k+10, port)):
+				res.Violate("C18/shard-address", "shard %s is contacted at %q, expected the address of pod %d", s.ID, got, k)
+			}
+			if s.Ready {
+				if j, dup := seen[s.ID]; dup {
+					res.Violate("C18/ready-shard-listed-twice", "shard %q is listed as ready at positions %d and %d", s.ID, j, k)
+				}
+				seen[s.ID] = k
+			}
+		}
+		if len(res.Viol) > 0 {
+			res.Witness = c
+		}
+		return res
+	}
 	if len(shards) != c.Old {
 		res.Violate("C18/shard-count", "Shards() lists %d shards for %d pods", len(shards), c.Old)
 	}
@@ -427,6 +486,7 @@ func init() {
 		Level: "exploration",
 		Rule: "exhaustive sweep within bounds: current and requested replica count in 0..12 (two-digit ordinals included) x 0..2 volume claim templates x deletion flag x 6 pod-list order classes x readiness patterns (quick: none / all / two alternating masks; thorough: every subset of pods with an IP up to 6 pods, 16 random subsets above), each with claims for all ordinals 0..12 of two StatefulSets plus decoys with similar names (data-prom-100, xdata-prom-1, data-promx-0, data-prom-b-k) and, in half of the cases, a second StatefulSet 'prom-b'; plus, for counts 0..6, every (first request, second request on the SAME manager object) pair and every (count set by somebody else behind the manager's back, request) pair; plus rolling-update-in-progress cases; plus update-rejected cases (Conflict / server error: the count stays, no claim may go); plus scripted lives of a StatefulSet over 4-11 cycles (ready / not ready / three shapes of a rolling update, 0-130 s passing between cycles through the verif hook that shifts the manager's not-ready timers): while a rolling update is in progress it must not be handed to the coordinator, however long it lasts; " +
 			"the real kubernetes.ReplicasManager / shard manager run on a client-go fake clientset; oracle over returned shards (ID, readiness, contacted URL) and over the fake's action log and objects; " +
+			"plus listings with one or two pods missing and/or a foreign pod carrying the selector's labels (2-12 pods, six order classes): no position may be ready unless the pod of that ordinal is listed with an IP, and no ready shard appears twice; " +
 			"non-trivial = every case; distinct = the parameter tuple",
 		Assumptions: []string{
 			"the client-go fake clientset stands for the API server (it applies updates and deletions to its object tracker)",
